@@ -108,9 +108,12 @@ var scopeTable = []scopeEntry{
 	// sibling guards
 	sc("MAT-8", `\[flag\]`, "C10", "C19"),
 	// parser typestate
-	sc("PAR-2", `:(back@|panic\[)`, "C08"),
+	sc("PAR-2", `:(back@|panic\[|meaning)`, "C08"),
 	sc("PAR-5", `:(panic-type@|recover\[)`, "C03", "C08"),
 	sc("PAR-6", `:(no-other-shortcuts|optional|repetition|alternation\[|concatenation\[)`, "C01"),
+	// multi-valued built-ins: String() is what the help shows as the default
+	sc("VAL-7", `:every-element`, "C17"),
+	sc("VAL-7", `.`, "C02", "C06", "C13", "C20"),
 	// capabilities
 	sc("VAL-5", `(IsDefault|DefaultValue)$`, "C17"),
 	sc("VAL-5", `IsBool$`, "C01", "C02", "C10", "C19"),
